@@ -80,6 +80,19 @@ let handle (line:string) : string =
            let items = List.sort compare (List.map (fun (i, v) -> (int_of_nat i, string_of_val v)) pe) in
            "OK " ^ String.concat " ; " (List.map (fun (i, s) -> string_of_int i ^ " " ^ s) items) ^ " | " ^ hex_or_dash r
        | Err e -> "ERR " ^ err_name e)
+  | "ROLES" ->
+      (* byte layout of an encoding: written primitive nodes in order, with their lengths *)
+      let g = read_dag () in
+      let k = next_int () in
+      let deps = List.init k (fun _ -> nat_of_int (next_int ())) in
+      let data = bytes_of_hex (next ()) in
+      (match dec_sample g deps data with
+       | OK (pe, _) ->
+           String.concat "," (List.map (fun (i, v) ->
+             let t = (match List.nth g (int_of_nat i) with NPrim t -> t | _ -> TNone) in
+             let l = (match write_value t v with Some b -> List.length b | None -> 0) in
+             string_of_int (int_of_nat i) ^ ":" ^ string_of_int l) (List.rev pe))
+       | Err e -> "ERR " ^ err_name e)
   | "HDR" ->
       let v = z_of_string (next ()) in let a = bytes_of_hex (next ()) in let o = bytes_of_hex (next ()) in
       let data = bytes_of_hex (next ()) in
@@ -87,6 +100,39 @@ let handle (line:string) : string =
        | OK r -> "OK " ^ hex_or_dash r | Err e -> "ERR " ^ err_name e)
   | "DIV" -> let e = z_of_string (next ()) in let a = z_of_string (next ()) in let t = z_of_string (next ()) in
              if values_have_diverged e a t then "1" else "0"
+  | "IEEE" -> (match ieee (bytes_of_hex (next ())) with
+               | Some (m, e) -> "SOME " ^ string_of_z m ^ " " ^ string_of_z e | None -> "NONE")
+  | "DV" -> (* DV tolm tole ty val val : the model's valuesHaveDiverged *)
+      let tm = z_of_string (next ()) in let te = z_of_string (next ()) in
+      let t = ty_of_string (next ()) in let e = read_val () in let a = read_val () in
+      if diverged_val (tm, te) t e a then "1" else "0"
+  | "SIM" ->
+      (* SIM wr cont tolm tole nsteps {D dag root | U n {ty val}} ntables {m {i val}} replayhex *)
+      let wr = next () = "1" in let cont = next () = "1" in
+      let tm = z_of_string (next ()) in let te = z_of_string (next ()) in
+      let nsteps = next_int () in
+      let rec steps k acc = if k = 0 then List.rev acc else
+        (match next () with
+         | "D" -> let g = read_dag () in let root = nat_of_int (next_int ()) in steps (k-1) (SDraw (g, root) :: acc)
+         | "U" -> let n = next_int () in
+                  let rec ps j a = if j = 0 then List.rev a else
+                    (let t = ty_of_string (next ()) in let v = read_val () in ps (j-1) ((t, v) :: a)) in
+                  let l = ps n [] in steps (k-1) (SUpdate l :: acc)
+         | s -> failwith ("step " ^ s)) in
+      let sc = steps nsteps [] in
+      let nt = next_int () in
+      let rec tables k acc = if k = 0 then List.rev acc else
+        (let m = next_int () in
+         let rec ent j a = if j = 0 then List.rev a else
+           (let i = nat_of_int (next_int ()) in let v = read_val () in ent (j-1) ((i, v) :: a)) in
+         let l = ent m [] in tables (k-1) (l :: acc)) in
+      let tbs = tables nt [] in
+      let replay = bytes_of_hex (next ()) in
+      let r = simulate (diverged_val (tm, te)) wr cont (prog_of_script sc) replay (oracle_of tbs) in
+      let oc = (match r.r_end with Completed -> "OK" | Diverged -> "DIVERGED"
+                | Failed e -> "FAIL " ^ err_name e | EncFailed -> "ENCFAIL") in
+      oc ^ " | " ^ (match r.r_trace with [] -> "-" | l -> String.concat "," (List.map hex_or_dash l))
+         ^ " | " ^ hex_or_dash r.r_out
   | s -> failwith ("cmd " ^ s)
 
 let () =
